@@ -1,8 +1,333 @@
-import Lean.Data.Json
-/- stub: the C13 driver is not built yet -/
-namespace Glom.C13.Driver
-open Lean
+import Glom.Py.Json
+import Glom.Spec.C13
+import Glom.Model.C13Env
+/-
+  C13 driver: one JSON case in, one JSON verdict out.
 
-def run (_j : Json) : Except String Json := .error "property C13: driver not implemented yet"
+  case:
+    "hier":   {"top":"object","mro":[[t,[c…]]…],"inst":[[t,c]…],"sub":[[c,d]…],
+               "auto":[[f,[[t,hname]…]]…],"universe":[t…]}
+    "kinds":  ["module"|"registry:1"|"registry:0"|"glommer:1"|"glommer:0" …]
+    "module_orders": [[t…]…]                      (set order of known_types at import time)
+    "actions": [{"a":"register","reg":i,"ty":t,"exact":b,"kw":[[op,hname|null]…]}
+               |{"a":"register_op","reg":i,"op":o,"auto":f,"exact":b}
+               |{"a":"lookup","reg":i,"op":o,"ty":t,"raise":b}
+               |{"a":"glom","reg":i,"spec":"get"|"iterate"|"assign"|"delete"|"star","ty":t}]
+    "impl":   {"obs":[ null                                   (register)
+                     | {"order":[t…]}                         (register_op: observed set order)
+                     | {"calls":[{"op","ty","raise","ans"}…],"ran":[tag…]} …],
+               "trees":[[[op,forest]…]…], "init_trees":[[[op,forest]…]…]}
+    ans: {"ret":hname|null} | "unregistered" | "keyError"      forest: [[ty,forest]…]
+-/
+namespace Glom.C13.Driver
+open Lean Glom Glom.C13
+
+def optStr (j : Json) : Except String (Option String) :=
+  match j with
+  | .null => .ok none
+  | .str s => .ok (some s)
+  | _ => .error s!"expected string or null, got {j.compress}"
+
+partial def forestOfJson (j : Json) : Except String Forest := do
+  let items ← arrOf j
+  let rec go : List Json → Except String Forest
+    | [] => .ok .nil
+    | x :: xs => do
+      match ← arrOf x with
+      | [t, k] => return .cons (← strOfJson t) (← forestOfJson k) (← go xs)
+      | _ => throw s!"bad forest item {x.compress}"
+  go items
+
+partial def forestToJson : Forest → Json
+  | f => Json.arr (go f).toArray
+where
+  go : Forest → List Json
+    | .nil => []
+    | .cons c k r => Json.arr #[Json.str c, forestToJson k] :: go r
+
+def hierOfJson (j : Json) : Except String (HierTab × List Ty) := do
+  let top ← j.getObjValAs? String "top"
+  let mro ← listOfJson (pairOfJson strOfJson (listOfJson strOfJson)) (← j.getObjVal? "mro")
+  let inst ← listOfJson (pairOfJson strOfJson strOfJson) (← j.getObjVal? "inst")
+  let sub ← listOfJson (pairOfJson strOfJson strOfJson) (← j.getObjVal? "sub")
+  let auto ← listOfJson (pairOfJson strOfJson (listOfJson (pairOfJson strOfJson strOfJson)))
+    (← j.getObjVal? "auto")
+  let uni ← listOfJson strOfJson (← j.getObjVal? "universe")
+  return ({ top, mro, inst, sub, auto }, uni)
+
+def kindOfStr : String → Except String RegKind
+  | "module" => .ok .module
+  | "registry:1" => .ok (.registry true)
+  | "registry:0" => .ok (.registry false)
+  | "glommer:1" => .ok (.glommer true)
+  | "glommer:0" => .ok (.glommer false)
+  | s => .error s!"bad registry kind {s}"
+
+def ansOfJson (j : Json) : Except String Answer :=
+  match j with
+  | .str "unregistered" => .ok .unregistered
+  | .str "keyError" => .ok .keyError
+  | _ => do
+    let h ← optStr (← j.getObjVal? "ret")
+    return .ret h
+
+def ansToJson : Answer → Json
+  | .ret (some h) => Json.mkObj [("ret", Json.str h)]
+  | .ret none => Json.mkObj [("ret", Json.null)]
+  | .unregistered => Json.str "unregistered"
+  | .keyError => Json.str "keyError"
+
+structure Call where
+  op : Op
+  ty : Ty
+  raiseExc : Bool
+  ans : Answer
+  deriving Repr, DecidableEq
+
+def callOfJson (j : Json) : Except String Call := do
+  return { op := ← j.getObjValAs? String "op", ty := ← j.getObjValAs? String "ty",
+           raiseExc := ← j.getObjValAs? Bool "raise", ans := ← ansOfJson (← j.getObjVal? "ans") }
+
+def callToJson (c : Call) : Json :=
+  Json.mkObj [("op", c.op), ("ty", c.ty), ("raise", c.raiseExc), ("ans", ansToJson c.ans)]
+
+/-- a case action, before expansion into model actions -/
+inductive CAct where
+  | register (reg : Nat) (ty : Ty) (exact : Bool) (kw : List (Op × Handler))
+  | registerOp (reg : Nat) (op : Op) (auto : String) (exact : Bool)
+  | lookup (reg : Nat) (op : Op) (ty : Ty) (raiseExc : Bool)
+  | glom (reg : Nat) (spec : String) (ty : Ty)
+
+def cactOfJson (j : Json) : Except String CAct := do
+  let a ← j.getObjValAs? String "a"
+  let reg ← j.getObjValAs? Nat "reg"
+  match a with
+  | "register" =>
+    let kw ← listOfJson (pairOfJson strOfJson optStr) (← j.getObjVal? "kw")
+    return .register reg (← j.getObjValAs? String "ty") (← j.getObjValAs? Bool "exact") kw
+  | "register_op" =>
+    return .registerOp reg (← j.getObjValAs? String "op") (← j.getObjValAs? String "auto")
+      (← j.getObjValAs? Bool "exact")
+  | "lookup" =>
+    return .lookup reg (← j.getObjValAs? String "op") (← j.getObjValAs? String "ty")
+      (← j.getObjValAs? Bool "raise")
+  | "glom" => return .glom reg (← j.getObjValAs? String "spec") (← j.getObjValAs? String "ty")
+  | _ => throw s!"bad action {a}"
+
+/-- the `get_handler` calls one real `glom` / `assign` / `delete` call performs (each with
+    `raise_exc=True`), following `_t_eval` 'P', `_handle_list`, `_assign_op`, `Delete._del_one`
+    and `_extend_children` (keys, then get; on UnregisteredTarget: iterate) -/
+def glomCalls (H : Hier) (r : Reg) (spec : String) (t : Ty) : Reg × List Call :=
+  let one (r : Reg) (op : Op) : Reg × Call :=
+    let (r', a) := getHandler H r op t true
+    (r', ⟨op, t, true, a⟩)
+  if spec == "star" then
+    let (r1, c1) := one r "keys"
+    if c1.ans == .unregistered then
+      let (r2, c2) := one r1 "iterate"
+      (r2, [c1, c2])
+    else
+      let (r2, c2) := one r1 "get"
+      if c2.ans == .unregistered then
+        let (r3, c3) := one r2 "iterate"
+        (r3, [c1, c2, c3])
+      else (r2, [c1, c2])
+  else
+    let (r1, c1) := one r spec
+    (r1, [c1])
+
+/-- the tagged handlers such a call then invokes (tagged `keys` handlers return no keys and
+    tagged `iterate` handlers no items, so nothing else runs) -/
+def expectedRan (spec : String) (calls : List Call) : List String :=
+  let tagOf (c : Call) : List String := match c.ans with
+    | .ret (some h) => if h.startsWith "h:" then [h] else []
+    | _ => []
+  if spec == "star" then
+    match calls with
+    | [k, g] => if g.op == "get" then tagOf k else tagOf g
+    | [_, _, i] => tagOf i
+    | _ => []
+  else calls.flatMap tagOf
+
+structure ImplObs where
+  order : Option (List Ty) := none
+  calls : List Call := []
+  ran : List String := []
+
+def implObsOfJson (j : Json) : Except String ImplObs := do
+  match j with
+  | .null => return {}
+  | _ =>
+    let order ← (match j.getObjVal? "order" with
+      | .ok o => do return some (← listOfJson strOfJson o)
+      | .error _ => pure none : Except String (Option (List Ty)))
+    let calls ← (match j.getObjVal? "calls" with
+      | .ok c => listOfJson callOfJson c
+      | .error _ => pure [])
+    let ran ← (match j.getObjVal? "ran" with
+      | .ok c => listOfJson strOfJson c
+      | .error _ => pure [])
+    return { order, calls, ran }
+
+def treesOfJson (j : Json) : Except String (List (List (Op × Forest))) :=
+  listOfJson (listOfJson (pairOfJson strOfJson forestOfJson)) j
+
+def sameTrees (model : List (Op × Forest)) (impl : List (Op × Forest)) : Bool :=
+  impl.all (fun p => (odGet p.1 model).getD .nil == p.2) &&
+  model.all (fun p => p.2 == .nil || (odGet p.1 impl).isSome)
+
+def isPerm (a b : List Ty) : Bool :=
+  a.length == b.length && a.all (fun x => b.contains x) && b.all (fun x => a.contains x)
+
+/-- which branch of `get_handler` answers (for the histogram) -/
+def lookupBranch (H : Hier) (r : Reg) (op : Op) (t : Ty) : String :=
+  if (odGet (t, op) r.cache).isSome then "memo"
+  else if (r.map op).isEmpty then "no-types"
+  else if (odGet t (r.map op)).isSome then "exact"
+  else match closest H t (r.tree op) with
+    | none => "no-match"
+    | some c =>
+      let nCand := (candidates H t (r.tree op)).length
+      let kind := if (H.mro t).contains c then "base" else "virtual"
+      if nCand > 1 then s!"tree-{kind}-among-{min nCand 3}" else s!"tree-{kind}"
+
+/-- virtual matches among the covering types of one lookup are flat (hypothesis `VirtFlat` of
+    Props/C13) -/
+def virtFlatCover (H : Hier) (top : Ty) (cover : List Ty) (t : Ty) : Bool :=
+  virtFlat H top (applicable H cover t) t
+
+/-- diagnostic classification of the lookups on which the property fails (for known-finding
+    classifiers); `holds` itself is `checkRun`, not this function -/
+def failingLookups (H : Hier) (S : Setup) (top : Ty) (kinds : List RegKind) :
+    Nat → List RefReg → List (Nat × List (Op × Ty) × List (Op × Ty)) →
+    List Action → List (Option Answer) → List Json
+  | _, _, _, [], _ => []
+  | _, _, _, _, [] => []
+  | n, w, memo, a :: as, o :: os =>
+    let here : List Json := match a, o with
+      | .lookup i op t _, some ans =>
+        (match w[i]? with
+         | some ρ =>
+           if answerOk (refAnswers H ρ op t) ans then [] else
+           let moduleOnly := S.moduleOps.any (fun m => m.op == op) &&
+             !(S.builtinOps.any (fun m => m.op == op))
+           let stale := (memo.find? (fun m => m.1 == i)).map (fun m => m.2.2.contains (op, t))
+           let cls :=
+             if kinds[i]? == some (.glommer true) && moduleOnly then "default-glommer-lacks-mutation-ops"
+             else if stale == some true then "register-op-keeps-memo"
+             else if !(virtFlatCover H top (ρ.coverOf op) t) then "virtual-match-not-most-specific"
+             else "other"
+           [Json.mkObj [("index", n), ("reg", i), ("op", op), ("ty", t), ("class", cls),
+             ("allowed", toJson (refAnswers H ρ op t))]]
+         | none => [])
+      | _, _ => []
+    let memo' := match a with
+      | .register i .. => memo.map (fun m => if m.1 == i then (m.1, [], []) else m)
+      | .registerOp i .. => memo.map (fun m => if m.1 == i then (m.1, m.2.1, m.2.2 ++ m.2.1) else m)
+      | .lookup i op t _ => memo.map (fun m => if m.1 == i then (m.1, (op, t) :: m.2.1, m.2.2) else m)
+    here ++ failingLookups H S top kinds (n + 1) (refStep H w a) memo' as os
+
+def run (j : Json) : Except String Json := do
+  let (tab, uni) ← hierOfJson (← j.getObjVal? "hier")
+  let H := tab.toHier
+  let kinds ← (← listOfJson strOfJson (← j.getObjVal? "kinds")).mapM kindOfStr
+  let orders ← listOfJson (listOfJson strOfJson) (← j.getObjVal? "module_orders")
+  let cacts ← listOfJson cactOfJson (← j.getObjVal? "actions")
+  let impl ← j.getObjVal? "impl"
+  let obs ← listOfJson implObsOfJson (← impl.getObjVal? "obs")
+  let implTrees ← treesOfJson (← impl.getObjVal? "trees")
+  let implInit ← treesOfJson (← impl.getObjVal? "init_trees")
+  if obs.length != cacts.length then throw "impl.obs does not align with actions"
+  let S := genSetup
+  let w0 := kinds.map (mkReg H S orders)
+  let initAgree := (w0.zip implInit).all (fun p => sameTrees p.1.typeTree p.2)
+  -- run the model over the case actions, expanding `glom` into its lookups
+  let mut w := w0
+  let mut acts : List Action := []          -- expanded history (for the checker)
+  let mut modelAns : List (Option Answer) := []
+  let mut implAns : List (Option Answer) := []
+  let mut notes : List String := []
+  let mut branches : List String := []
+  let mut modelObs : List Json := []
+  for (ca, ob) in cacts.zip obs do
+    match ca with
+    | .register i t e kw =>
+      let a := Action.register i t e kw
+      w := (step H w a).1; acts := acts ++ [a]
+      modelAns := modelAns ++ [none]; implAns := implAns ++ [none]
+      modelObs := modelObs ++ [Json.null]
+    | .registerOp i op f e =>
+      let order := ob.order.getD []
+      let known := (w[i]?.map Reg.knownTypes).getD []
+      if !(isPerm order known) then
+        notes := notes ++ [s!"register_op order {order} is not a permutation of the model's known types {known}"]
+      let a := Action.registerOp i op f e order
+      w := (step H w a).1; acts := acts ++ [a]
+      modelAns := modelAns ++ [none]; implAns := implAns ++ [none]
+      modelObs := modelObs ++ [Json.null]
+    | .lookup i op t re =>
+      match w[i]? with
+      | none => throw s!"no registry {i}"
+      | some r =>
+        branches := branches ++ [lookupBranch H r op t]
+        let a := Action.lookup i op t re
+        let (w', o) := step H w a
+        w := w'; acts := acts ++ [a]
+        modelAns := modelAns ++ [o]
+        match ob.calls with
+        | [c] =>
+          if c.op != op || c.ty != t || c.raiseExc != re then
+            notes := notes ++ [s!"lookup observation is for a different call"]
+          implAns := implAns ++ [some c.ans]
+        | _ => notes := notes ++ ["lookup without exactly one observed call"]
+               implAns := implAns ++ [none]
+        modelObs := modelObs ++ [Json.mkObj [("calls", Json.arr #[callToJson ⟨op, t, re, o.getD .keyError⟩])]]
+    | .glom i spec t =>
+      match w[i]? with
+      | none => throw s!"no registry {i}"
+      | some r =>
+        let (r', calls) := glomCalls H r spec t
+        -- branch of the first call
+        branches := branches ++ [s!"glom-{spec}"] ++ (calls.head?.map (fun c => [lookupBranch H r c.op t])).getD []
+        w := updateAt (fun _ => r') i w
+        if calls.map (fun c => (c.op, c.ty, c.raiseExc)) != ob.calls.map (fun c => (c.op, c.ty, c.raiseExc)) then
+          notes := notes ++ [s!"glom({spec}) performed different get_handler calls than the model expects"]
+        if expectedRan spec ob.calls != ob.ran then
+          notes := notes ++ [s!"glom({spec}) ran handlers {ob.ran}, not the ones get_handler returned"]
+        -- the history seen by the checker is the sequence of calls the implementation made
+        for c in ob.calls do
+          acts := acts ++ [Action.lookup i c.op c.ty c.raiseExc]
+          implAns := implAns ++ [some c.ans]
+        -- model answers aligned with the implementation's calls (padded / truncated)
+        let m := calls.map (fun c => some c.ans)
+        modelAns := modelAns ++ (m.take ob.calls.length) ++
+          List.replicate (ob.calls.length - m.length) (some Answer.keyError)
+        modelObs := modelObs ++ [Json.mkObj [("calls", Json.arr (calls.map callToJson).toArray),
+          ("ran", toJson (expectedRan spec calls))]]
+  let treesAgree := (w.zip implTrees).all (fun p => sameTrees p.1.typeTree p.2)
+  let agree := initAgree && treesAgree && notes.isEmpty && modelAns == implAns
+  let refW := kinds.map (refMk H S)
+  -- `ran` consistency is part of what the property observes ("which registered handler runs")
+  let ranOK := (cacts.zip obs).all (fun p => match p.1 with
+    | .glom _ spec _ => expectedRan spec p.2.calls == p.2.ran
+    | _ => true)
+  let holds := checkRun H refW acts implAns && ranOK
+  let modelHolds := checkRun H refW acts modelAns
+  let why :=
+    (if initAgree then [] else ["initial trees differ"]) ++
+    (if treesAgree then [] else ["final trees differ"]) ++
+    (if modelAns == implAns then [] else ["answers differ"]) ++ notes
+  let bs := branches.eraseDups
+  let sorted := bs.toArray.qsort (· < ·) |>.toList
+  return Json.mkObj [("agree", agree), ("holds", holds), ("model_holds", modelHolds),
+    ("wf", hierWF H tab.top uni),
+    ("shape_ok", shapeOK),
+    ("model", Json.mkObj [("obs", Json.arr modelObs.toArray),
+      ("trees", Json.arr (w.map (fun r => Json.arr (r.typeTree.map (fun p =>
+        Json.arr #[Json.str p.1, forestToJson p.2])).toArray)).toArray)]),
+    ("failing", Json.arr (failingLookups H S tab.top kinds 0 refW
+        ((List.range kinds.length).map (fun i => (i, [], []))) acts implAns).toArray),
+    ("branch", "+".intercalate sorted),
+    ("why", "; ".intercalate why)]
 
 end Glom.C13.Driver
